@@ -6,6 +6,8 @@ A(bsolute) / O(ffset) / D(elta); the defining log maps for logarithmic units.
 """
 from __future__ import annotations
 
+import logging
+
 import math
 import operator
 from fractions import Fraction
@@ -35,7 +37,7 @@ def tasks(tier, seed):
     t = [{"sub": "convert", "shard": i} for i in range(2)]
     t += [{"sub": "addsub", "shard": i, "auto": bool(i % 2)} for i in range(4)]
     t += [{"sub": "muldiv", "shard": i, "auto": bool(i % 2)} for i in range(4)]
-    t += [{"sub": "inplace", "shard": 0}, {"sub": "log", "shard": 0}, {"sub": "logarith", "shard": 0}]
+    t += [{"sub": "inplace", "shard": 0}, {"sub": "log", "shard": 0}, {"sub": "logarith", "shard": 0}, {"sub": "redef", "shard": 0}]
     return t
 
 
@@ -612,11 +614,73 @@ def run_logarith(task, tier, seed, col):
     hyp_search(col, strat, lambda c: case_logarith(c, col), max_examples=400 if tier == "quick" else 6000, seed=seed * 139)
 
 
+# ------------------------------------------------------------------------------------- an offset unit whose definition is replaced
+
+def case_redef(case, col=None):
+    """An offset unit defined as (s1, o1) and replaced by (s2, o2) - by a context that redefines it, or by a second define() on a registry built with
+    on_redefinition 'warn' / 'ignore' - follows the affine map in force: absolute conversions, its delta unit (scale only), differences, offset + delta;
+    after the context is left the first map is back."""
+    import pint
+
+    (s1, o1), (s2, o2), how, nit = (Fraction(*case["m1"][0]), Fraction(*case["m1"][1])), (Fraction(*case["m2"][0]), Fraction(*case["m2"][1])), case["how"], case["nit"]
+    x, y = Fraction(*case["x"]), Fraction(*case["y"])
+    if col is not None:
+        col.case(("r", str(case)), (s1, o1) != (s2, o2), sample=case, cls=how + ":" + nit)
+    logging.disable(logging.CRITICAL)
+    try:
+        ureg = env.fresh(nit, on_redefinition=("ignore" if how == "define_ignore" else "warn"))
+        line = lambda s_, o_: f"degX = {s_.numerator}/{s_.denominator} * kelvin; offset: {o_.numerator}/{o_.denominator} = dgX"  # noqa: E731
+        ureg.define(line(s1, o1))
+        Q = ureg.Quantity
+        T = env.NIT[nit]
+        num = (lambda v: v) if nit == "Fraction" else (lambda v: T(v.numerator) / T(v.denominator))
+
+        def battery(s_, o_, tag):
+            want = {"abs": x * s_ + o_, "back": (x - o_) / s_, "delta": x * s_, "delta_in": x / s_, "diff": (x - y) * s_, "sum": x + y / s_, "sym": x * s_ + o_}
+            asks = {"abs": lambda: Q(num(x), "degX").to("kelvin"), "back": lambda: Q(num(x), "kelvin").to("degX"), "delta": lambda: Q(num(x), "delta_degX").to("kelvin"),
+                    "delta_in": lambda: Q(num(x), "delta_degC").to("delta_degX"), "diff": lambda: (Q(num(x), "degX") - Q(num(y), "degX")).to("kelvin"),
+                    "sum": lambda: Q(num(x), "degX") + Q(num(y), "delta_degC"), "sym": lambda: Q(num(x), "dgX").to("kelvin")}
+            for k_, fn in asks.items():
+                s__, r = attempt(fn)
+                if s__ == "err":
+                    raise Violation(f"redefined_offset_unit_raised:{how}:{k_}:{exc_class(r)}", f"[{tag}] {case}: {k_} raised {type(r).__name__}: {r}")
+                g = r.magnitude
+                ok = (g == want[k_]) if nit == "Fraction" else abs(float(g) - float(want[k_])) <= 1e-9 * max(1.0, abs(float(want[k_])), abs(float(o_)), abs(float(x * s_)))
+                if not ok:
+                    raise Violation(f"redefined_offset_unit_wrong:{how}:{k_}", f"[{tag}] degX = {s_} K; offset {o_}: {k_} of x={x}, y={y} gives {g!r}, the affine map gives {want[k_]}")
+                if k_ == "sum" and dict(r._units) != {"degX": 1}:
+                    raise Violation(f"redefined_offset_unit_wrong:{how}:sum_unit", f"[{tag}] offset + delta gave units {dict(r._units)}")
+
+        battery(s1, o1, "first definition")
+        if how == "context":
+            ureg.add_context(pint.Context.from_lines(["@context hot", line(s2, o2).split(" = dgX")[0]], non_int_type=T))
+            with ureg.context("hot"):
+                battery(s2, o2, "inside the redefining context")
+            battery(s1, o1, "after leaving the context")
+            with ureg.context("hot"):
+                battery(s2, o2, "inside the redefining context again")
+        else:
+            ureg.define(line(s2, o2))
+            battery(s2, o2, "after the second define()")
+    finally:
+        logging.disable(logging.NOTSET)
+
+
+def run_redef(task, tier, seed, col):
+    fr = st.tuples(st.integers(1, 9), st.integers(1, 5))
+    off = st.tuples(st.integers(-300, 300).filter(bool), st.integers(1, 4))  # offset 0 would make it a plain scaled unit (no delta counterpart)
+    strat = st.fixed_dictionaries({"m1": st.tuples(fr, off), "m2": st.tuples(fr, off), "how": st.sampled_from(["context", "context", "define_ignore", "define_warn"]), "nit": st.sampled_from(["Fraction", "float", "Decimal"]),
+                                   "x": st.tuples(st.integers(-50, 50), st.integers(1, 4)), "y": st.tuples(st.integers(-50, 50), st.integers(1, 4))})
+    hyp_search(col, strat, lambda c: case_redef(c, col), max_examples=60 if tier == "quick" else 1200, seed=seed * 149 + 3, shrink_budget_s=60)
+
+
 def run_task(task, tier, seed, col):
-    {"convert": run_convert, "addsub": run_addsub, "muldiv": run_muldiv, "inplace": run_inplace, "log": run_log, "logarith": run_logarith}[task["sub"]](task, tier, seed, col)
+    {"convert": run_convert, "addsub": run_addsub, "muldiv": run_muldiv, "inplace": run_inplace, "log": run_log, "logarith": run_logarith, "redef": run_redef}[task["sub"]](task, tier, seed, col)
 
 
 def replay(sub, case):
+    if sub == "redef":
+        return case_redef(case)
     if sub == "convert" and set(case) == {"unit"}:
         return case_scale(case)
     if sub == "muldiv":
